@@ -307,9 +307,22 @@ func c21Run(raw json.RawMessage) (Case, error) {
 		return Case{}, err
 	}
 	n.begin()
+	// the operator's lists go through the real configuration loader; the node gets what it delivers
+	loadedT, loadedP, err := c21LoadIDFields(in.TraceNames, in.ParentNames)
+	if err != nil {
+		return Case{}, err
+	}
+	// what the operator configured: his list, or the documented default when he gave none
+	wantT, wantP := in.TraceNames, in.ParentNames
+	if len(wantT) == 0 {
+		wantT = c21DefaultTrace
+	}
+	if len(wantP) == 0 {
+		wantP = c21DefaultParent
+	}
 	n.cfg.Mux.Lock()
-	n.cfg.TraceIdFieldNames = append([]string{}, in.TraceNames...)
-	n.cfg.ParentIdFieldNames = append([]string{}, in.ParentNames...)
+	n.cfg.TraceIdFieldNames = loadedT
+	n.cfg.ParentIdFieldNames = loadedP
 	n.cfg.Mux.Unlock()
 	hdr := map[string]string{"X-Honeycomb-Team": rtLegacyKey}
 	// group batch events per (encoding, listener); single events go one request each
@@ -467,7 +480,7 @@ func c21Run(raw json.RawMessage) (Case, error) {
 		for _, f := range evFields {
 			fs = append(fs, cq.Pair(c21Str(f.Name), c21Coq(f.Val, isJSON)))
 			if f.Val.K == "str" && f.Val.S != "" {
-				for _, t := range in.TraceNames {
+				for _, t := range wantT {
 					if t == f.Name {
 						nIDs++
 					}
@@ -496,10 +509,18 @@ func c21Run(raw json.RawMessage) (Case, error) {
 		}
 		nontriv = nontriv || nIDs >= 2
 	}
-	coq := cq.App("Build_case", c21StrList(in.TraceNames), c21StrList(in.ParentNames), cq.List(evs))
+	coq := cq.App("Build_case", c21StrList(wantT), c21StrList(wantP), c21StrList(loadedT), c21StrList(loadedP), cq.List(evs))
+	if len(in.TraceNames) == 0 {
+		tags = append(tags, "trace-names:default")
+	} else {
+		tags = append(tags, fmt.Sprintf("trace-names:custom-%d", len(in.TraceNames)))
+		if !sort.StringsAreSorted(in.TraceNames) {
+			tags = append(tags, "trace-names:non-alphabetical")
+		}
+	}
 	key, _ := json.Marshal(in)
 	return Case{Coq: coq, Key: string(key), Nontriv: nontriv, Tags: tags,
-		Summary: map[string]any{"trace_names": in.TraceNames, "parent_names": in.ParentNames, "events": hs, "responses": statuses}}, nil
+		Summary: map[string]any{"trace_names": in.TraceNames, "parent_names": in.ParentNames, "loaded_trace_names": loadedT, "loaded_parent_names": loadedP, "events": hs, "responses": statuses}}, nil
 }
 
 func c21Shrink(raw json.RawMessage) []json.RawMessage {
